@@ -54,12 +54,14 @@ Print Assumptions C07_hkdf.
 (* a copied state is the same value: it continues exactly like the original *)
 Theorem C07_copy : forall s, xof_copy s = s.
 Proof. reflexivity. Qed.
+Print Assumptions C07_copy.
 
 (* re-initialising a used object = initialising a fresh one: the re-init functions return
    the init value whatever the previous history left in the object *)
 Theorem C07_reinit_aead : forall v s npub k,
   inc_start Perm.perm v (inc_reinit v s (Some npub) (Some k)) = inc_start Perm.perm v (inc_init v (Some npub) (Some k)).
 Proof. reflexivity. Qed.
+Print Assumptions C07_reinit_aead.
 
 (* in-place = out-of-place for every left-to-right read-then-write block routine *)
 Theorem C07_inplace : forall (C St : Type) (step : St -> C -> St * C) s buf,
